@@ -132,7 +132,7 @@ class T2World(World):
             if mem[i] is None:
                 if symbolic_window is not None and not (
                         symbolic_window[0] <= i < symbolic_window[1]):
-                    mem[i] = 0x55
+                    mem[i] = (i * 7 + (i >> 7) * 13 + 3) & 0x7F      # position dependent, no 1 KiB period
                 elif old_lt_80 and i in valset:
                     # long-message runs: previous contents of the message area
                     # below 0x80, new message bytes at or above (removes the
@@ -266,7 +266,7 @@ class T1World(World):
             if mem[i] is None:
                 if symbolic_window is not None and not (
                         symbolic_window[0] <= i < symbolic_window[1]):
-                    mem[i] = 0x55 if i >= 8 else i + 1
+                    mem[i] = ((i * 7 + 3) & 0x7F) if i >= 8 else i + 1
                 elif old_lt_80 and i in valset:
                     mem[i] = sx.int("m[%d]" % i, 0, 0x7F)
                 else:
@@ -318,7 +318,7 @@ class T3World(World):
         cs = sum(attr)
         mem[0:16] = attr + [cs >> 8, cs & 255]
         for i in range(16, len(mem)):
-            mem[i] = sx.byte("m[%d]" % i) if fill is None else (fill + i // 16) & 0xFF
+            mem[i] = sx.byte("m[%d]" % i) if fill is None else (fill + i * 5 + i // 16) & 0xFF
         self.nmaxb = nmaxb
         self.cap = nmaxb * 16
         self.oldlen = oldlen
@@ -354,7 +354,7 @@ class T4World(World):
     kind = "tt4"
 
     def __init__(self, sx, ver, mle, mlc, mfs, oldlen=0, typ="A", fsci=8, fwi=4,
-                 aid_v=2, tx_size=None, wtx_at=(), fill=None):
+                 aid_v=2, tx_size=None, wtx_at=(), fill=None, guard=0):
         self.sx = sx
         nl = 2 if ver >> 4 < 3 else 4
         self.nl = nl
@@ -364,13 +364,14 @@ class T4World(World):
         else:
             tlv = [0x06, 0x08, 0xE1, 0x04, 0, 0] + b2(mfs) + [0x00, 0x00]
         cc = b2(7 + len(tlv)) + [ver] + b2(mle) + b2(mlc) + tlv
-        nfile = [None] * mfs
+        # `guard` bytes of the card's file lie behind the size the CC declares
+        nfile = [None] * (mfs + guard)
         if nl == 2:
             nfile[0:2] = b2(oldlen)
         else:
             nfile[0:4] = [0, 0] + b2(oldlen)
-        for i in range(nl, mfs):
-            nfile[i] = sx.byte("f[%d]" % i) if fill is None else fill
+        for i in range(nl, mfs + guard):
+            nfile[i] = sx.byte("f[%d]" % i) if fill is None else (fill + i * 3) & 0xFF
         self.cap = mfs - nl
         self.oldlen = oldlen
         self.old = sx.mkbytes(nfile[nl:nl + oldlen], False)
